@@ -23,10 +23,15 @@ def probes():
 
 
 def fixed_probes(d, e):
-    return [('fixed-len', B.ldx('dw', 2, 1, d) + B.ldx('dw', 3, 1, e) + B.movr(0, 3) + B.alu('sub', 0, src=2) + B.EXIT),
-            ('fixed-start', B.ldx('dw', 0, 1, d) + B.EXIT),
-            ('fixed-first-byte', B.ldx('dw', 2, 1, d) + B.ldx('b', 0, 2, 0) + B.EXIT),
-            ('fixed-last-byte', B.ldx('dw', 3, 1, e) + B.ldx('b', 0, 3, -1) + B.EXIT)]
+    def word(dst, off):
+        """dst := the 8 bytes at metadata + off (offsets beyond the 16-bit displacement go through a register)"""
+        if off <= 32767:
+            return B.ldx('dw', dst, 1, off)
+        return B.movr(dst, 1) + B.alu('add', dst, imm=off) + B.ldx('dw', dst, dst, 0)
+    return [('fixed-len', word(2, d) + word(3, e) + B.movr(0, 3) + B.alu('sub', 0, src=2) + B.EXIT),
+            ('fixed-start', word(0, d) + B.EXIT),
+            ('fixed-first-byte', word(2, d) + B.ldx('b', 0, 2, 0) + B.EXIT),
+            ('fixed-last-byte', word(3, e) + B.ldx('b', 0, 3, -1) + B.EXIT)]
 
 
 def run(chk):
@@ -37,7 +42,7 @@ def run(chk):
         binary = vlib.harness_build('debug')
         rng = vlib.Rng(chk.seed).fork('C09')
         lines, meta = [], []
-        lens = [0, 1, 7, 8, 9, 1500]
+        lens = [0, 1, 7, 8, 9, 1500] if chk.tier != 'thorough' else [0, 1, 2, 7, 8, 9, 15, 16, 17, 63, 64, 65, 255, 1500, 4096, 9000]
         for kind in ('mbuff', 'raw', 'nodata'):
             for ln in lens:
                 pk = bytes((3 * i + 5) & 255 for i in range(ln))
@@ -49,6 +54,8 @@ def run(chk):
                         lines.append(c.line(engine=eng, kind=kind))
                         meta.append((kind, eng, name, pk, None, c))
         offs = [(0, 8), (8, 0), (0x40, 0x50), (0x50, 0x40), (0, 4096), (7, 15), (15, 7), (24, 8)]
+        if chk.tier == 'thorough':
+            offs += [(1, 9), (9, 1), (3, 100), (100, 3), (0, 65536), (65536, 0), (8, 16), (16, 8), (1000, 2000), (4095, 4103)]
         for (d, e) in offs:
             for ln in lens:
                 pk = bytes((7 * i + 1) & 255 for i in range(ln))
@@ -63,7 +70,7 @@ def run(chk):
                             lines.append(c.line(engine=eng, kind='fixed') + ' d=%d e=%d reps=%d' % (d, e, reps))
                             meta.append(('fixed', eng, name, pk, (d, e), c))
                         # the same VM executed first on another packet: the buffer must describe the current packet, not the earlier one
-                        for prev in (bytes(range(1, 7)) + pk, bytes(2000)):      # longer than the packet: the probes stay in bounds there
+                        for prev in (bytes(range(1, 7)) + pk, bytes(max(2000, ln + 100))):      # longer than the packet: the probes stay in bounds there
                             c = Case(prog, mem=pk, xmem=prev, fam=name + ':after-other-packet')
                             lines.append(c.line(engine=eng, kind='fixed') + ' d=%d e=%d prev=1' % (d, e))
                             meta.append(('fixed', eng, name, pk, (d, e), c))
